@@ -15,17 +15,20 @@ ASSUMPTIONS = ["values are set through the setter matching the value's C type, f
 P = {}
 
 def prepare(runner, work):
-    global P
     sets = {"cur": tables.shipped("cur") + ("-", "-"),
             "loc": tables.shipped("cur") + (os.path.join(tables.REPO, "Test/local_table_b"), os.path.join(tables.REPO, "Test/local_table_d")),
             "v13": tables.shipped("v13") + ("-", "-")}
-    P = tables.setup_tables(runner, sets)
+    from gen import synth_tables
+    pb, pd = synth_tables.write_tables(os.path.join(work, "syn"))
+    sets["syn"] = tables.shipped("cur") + (pb, pd)
+    P.clear()
+    P.update(tables.setup_tables(runner, sets))
 
 def scenarios(rng, tier, runner):
     out = []
     n = 700 if tier == "quick" else 12000
     for i in range(n):
-        name = rng.choice(["cur", "loc", "loc", "v13"])
+        name = rng.choice(["cur", "loc", "syn", "syn", "v13"])
         B, D = P[name]
         ls, meta = datasets.build_lines(rng, name, B, D)
         ls += ["ds.invalid", "ds.encode 0", "ds.decodelast 1 0 0"]
